@@ -985,6 +985,8 @@ pub struct RunOutput {
     pub probes: BTreeMap<&'static str, u64>,
     /// tasks still alive when the run ended: (id, kind)
     pub alive_at_end: Vec<(u32, u8)>,
+    /// (task id, number of polls) for every task of the run
+    pub task_polls: Vec<(u32, u32)>,
 }
 
 pub const PHASE1_CAP: u64 = 30_000;
@@ -1049,7 +1051,7 @@ pub fn run_scenario(sc: &Scenario) -> RunOutput {
     install(scn.clone());
     let cfg = sim_config(sc);
     let mut outcome = Outcome::default();
-    let (stats, decisions, hash, tev, alive) = simrt::run(cfg, || {
+    let (stats, decisions, hash, tev, alive, task_polls) = simrt::run(cfg, || {
         // ---- prologue: the registry is process-global; make sure it is empty
         let ok = drive_task(clear_registry(), 1000);
         assert!(ok, "harness: prologue did not finish");
@@ -1190,18 +1192,19 @@ pub fn run_scenario(sc: &Scenario) -> RunOutput {
         outcome.replay_diverged = st.replay_diverged;
         let alive: Vec<(u32, u8)> =
             simrt::tasks().into_iter().filter(|t| !t.done).map(|t| (t.id, t.kind as u8)).collect();
+        let polls: Vec<(u32, u32)> = simrt::tasks().into_iter().map(|t| (t.id, t.polls)).collect();
         // handles that were never dropped (drop_handles == false) go now, before teardown
         let held: Vec<Ent> = RETAINED.with(|r| std::mem::take(&mut *r.borrow_mut()));
         drop(held);
         let left = std::mem::take(&mut mail.borrow_mut().gifts);
         drop(left);
         with_h(|h| h.weak.clear());
-        (st, simrt::decisions(), simrt::trace_hash(), simrt::task_events(), alive)
+        (st, simrt::decisions(), simrt::trace_hash(), simrt::task_events(), alive, polls)
     });
     let log = take_merged(tev);
     let probes = take_probes();
     uninstall();
-    RunOutput { log, outcome, stats, decisions, hash, probes, alive_at_end: alive }
+    RunOutput { log, outcome, stats, decisions, hash, probes, alive_at_end: alive, task_polls }
 }
 
 thread_local! {
